@@ -2,7 +2,7 @@
    Statements only; each is closed by [exact <lemma>]. Generic layer: every theorem quantifies
    over ALL event lists accepted by the LTS of singleflight.Do ([reach tr s]), i.e. over all
    interleavings of any number of callers over any number of keys, for any result type R. *)
-From V Require Import Base Singleflight Singleflight_proofs CorrBase Corr_C16 Corr_C16_proofs.
+From V Require Import Base GoQuote GoQuote_proofs Singleflight Singleflight_proofs CorrBase Corr_C16 Corr_C16_proofs.
 
 (* For each key at most one execution is in flight (fn running, or finished and not yet cleaned
    up): executions of one key never overlap. *)
@@ -82,44 +82,60 @@ Print Assumptions C16_refines_coalescing_spec.
 
 (* ---------------- wrapper layer (both services) ---------------- *)
 
-(* Equal composite keys => same endpoint and same subject (token, or e-mail + sorted group
-   list), under the guard: no ':' in the e-mail, no ',' in a group name, group list not [""]. *)
+(* Go's %q (strconv.Quote; a []string printed as the quoted elements between [ and ]) is
+   self-delimiting and injective on byte strings, for EVERY IsPrint table: this is what makes the
+   repaired keys unambiguous. *)
+Theorem C16_quote_self_delimiting : forall (isprint : N -> bool) a b x y,
+  bytes a -> bytes b -> go_quote isprint a ++ x = go_quote isprint b ++ y -> a = b /\ x = y.
+Proof. exact go_quote_cut. Qed.
+Print Assumptions C16_quote_self_delimiting.
+
+Theorem C16_quoted_list_self_delimiting : forall (isprint : N -> bool) l1 l2 x y,
+  all_bytes l1 -> all_bytes l2 -> go_qlist isprint l1 ++ x = go_qlist isprint l2 ++ y -> l1 = l2 /\ x = y.
+Proof. exact go_qlist_cut. Qed.
+Print Assumptions C16_quoted_list_self_delimiting.
+
+(* KEYS ARE INJECTIVE, without any guard, for all e-mails, tokens and group lists (byte strings):
+   for well-formed questions of one service, equal composite keys imply the same method, the same
+   subject — the token; for Revoke the access AND the refresh token; for the group questions the
+   e-mail and the SORTED group list, i.e. the same groups in any order (with multiplicity) — and,
+   for the proxy's ValidateSessionState / RefreshSession, the same sorted allowed groups.
+   (Before 4af0640 / 8276927 / 7e98525 this needed a guard and was refuted without it:
+   known findings C16-K2 and C16-K3, now fixed.) *)
 Theorem C16_keys_injective : forall q1 q2,
-  wf_question q1 = true -> wf_question q2 = true -> guard q1 = true -> guard q2 = true ->
-  wrapper_key q1 = wrapper_key q2 -> subject_of q1 = subject_of q2.
+  wf_question q1 = true -> wf_question q2 = true -> q_bytes q1 -> q_bytes q2 ->
+  service_of (q_endpoint q1) = service_of (q_endpoint q2) ->
+  wrapper_key q1 = wrapper_key q2 ->
+  q_endpoint q1 = q_endpoint q2 /\ subject_of q1 = subject_of q2 /\ allowed_of q1 = allowed_of q2.
 Proof. exact keys_injective. Qed.
 Print Assumptions C16_keys_injective.
 
-(* Group lists that reach auth's ValidateGroupMembership through /profile come from
-   strings.Split(form, ",") (or are empty): they satisfy the groups part of the guard. *)
-Theorem C16_profile_groups_guarded : forall email form_value,
-  no_byte colon email = true ->
-  guard_groups email (match form_value with [] => [] | _ => split_on comma form_value end) = true.
-Proof. exact profile_groups_guarded. Qed.
-Print Assumptions C16_profile_groups_guarded.
+(* ... and exactly those: questions with the same method, subject and allowed groups share a key
+   (so "the same set of groups in any order" is meant to merge, and does). *)
+Theorem C16_keys_complete : forall q1 q2,
+  wf_question q1 = true -> wf_question q2 = true ->
+  q_endpoint q1 = q_endpoint q2 -> subject_of q1 = subject_of q2 -> allowed_of q1 = allowed_of q2 ->
+  wrapper_key q1 = wrapper_key q2.
+Proof. exact keys_complete. Qed.
+Print Assumptions C16_keys_complete.
 
-(* Without the guard the statement is FALSE (known finding C16-K2): ("a", ["b:c"]) and
-   ("a:b", ["c"]) — and ("a", ["b,c"]) and ("a", ["b";"c"]) — share a key. *)
-Theorem C16_keys_injective_unguarded_refuted :
-  (exists q1 q2, wf_question q1 = true /\ wf_question q2 = true /\
-     wrapper_key q1 = wrapper_key q2 /\ subject_of q1 <> subject_of q2) /\
-  (exists q1 q2, wf_question q1 = true /\ wf_question q2 = true /\
-     wrapper_key q1 = wrapper_key q2 /\ subject_of q1 <> subject_of q2 /\
-     q_endpoint q1 = PUserGroups).
-Proof.
-  split; [exact keys_collide_colon|].
-  destruct keys_collide_comma as [q1 [q2 H]].
-  exists (QGroups PUserGroups [bA] [[bB; comma; bC]]), (QGroups PUserGroups [bA] [[bB]; [bC]]).
-  repeat split; try reflexivity. discriminate.
-Qed.
-Print Assumptions C16_keys_injective_unguarded_refuted.
+(* regression: the pairs that used to collide have different keys now.
+   (historical: C16_keys_injective_unguarded_refuted, C16_profile_groups_guarded) *)
+Theorem C16_old_collisions_now_distinct :
+  wrapper_key (QGroups AGroupMembership [bA] [[bB; colon; bC]]) <> wrapper_key (QGroups AGroupMembership [bA; colon; bB] [[bC]]) /\
+  wrapper_key (QGroups PUserGroups [bA] [[bB; comma; bC]]) <> wrapper_key (QGroups PUserGroups [bA] [[bB]; [bC]]) /\
+  wrapper_key (QGroups AGroupMembership [bA] []) <> wrapper_key (QGroups AGroupMembership [bA] [[]]).
+Proof. exact old_collisions_now_distinct. Qed.
+Print Assumptions C16_old_collisions_now_distinct.
 
-(* Callers that share an execution asked about the same subject, under the guard. *)
+(* Callers that share an execution asked the same method about the same subject and the same
+   allowed groups. *)
 Theorem C16_merged_same_subject : forall tr w t1 t2 c q1 q2,
   wreach tr w -> in_call (w_g w) t1 c -> in_call (w_g w) t2 c ->
   In (WEnter t1 q1) tr -> In (WEnter t2 q2) tr ->
-  wf_question q1 = true -> wf_question q2 = true -> guard q1 = true -> guard q2 = true ->
-  subject_of q1 = subject_of q2.
+  wf_question q1 = true -> wf_question q2 = true -> q_bytes q1 -> q_bytes q2 ->
+  service_of (q_endpoint q1) = service_of (q_endpoint q2) ->
+  q_endpoint q1 = q_endpoint q2 /\ subject_of q1 = subject_of q2 /\ allowed_of q1 = allowed_of q2.
 Proof. exact merged_same_subject. Qed.
 Print Assumptions C16_merged_same_subject.
 
@@ -163,11 +179,11 @@ Proof. exact follower_session_gap. Qed.
 Print Assumptions C16_follower_session_gap.
 
 (* The monitor used on the implementation's observations accepts the wrapper model's own
-   prediction: subject clause under the guard, session clause for the caller whose call ran. *)
-Theorem C16_monitor_subject_accepts_model : forall tr w t,
+   prediction: subject clause (no guard), session clause for the caller whose call ran. *)
+Theorem C16_monitor_subject_accepts_model : forall tr w t svc,
   wreach tr w ->
-  (forall q, In q (questions tr) -> wf_question q = true /\ guard q = true) ->
-  thread (w_g w) t <> None -> allowed_clause tr t = true -> subject_clause tr t = true.
+  (forall q, In q (questions tr) -> wf_question q = true /\ q_bytes q /\ service_of (q_endpoint q) = svc) ->
+  thread (w_g w) t <> None -> subject_clause tr t = true.
 Proof. exact monitor_subject_accepts_model. Qed.
 Print Assumptions C16_monitor_subject_accepts_model.
 
@@ -177,28 +193,21 @@ Theorem C16_monitor_session_accepts_leader : forall tr w t r n q s0,
 Proof. exact monitor_session_accepts_leader. Qed.
 Print Assumptions C16_monitor_session_accepts_leader.
 
-(* Attribution (Corr_C16.judge): on every run of the wrapper model, each failing clause of the
-   monitor carries the signature of a listed finding — a failing subject clause only when the
-   caller's or its leader's question violates the guard (C16-K2) or the two passed different
-   allowed groups to one wrapper object (C16-K3) ... *)
-Theorem C16_monitor_subject_failure_explained : forall tr w t,
-  wreach tr w -> (forall q, In q (questions tr) -> wf_question q = true) ->
-  thread (w_g w) t <> None -> guard_clause tr t = true -> allowed_clause tr t = true -> subject_clause tr t = true.
-Proof. exact monitor_subject_failure_explained. Qed.
-Print Assumptions C16_monitor_subject_failure_explained.
+(* Attribution (Corr_C16.judge): on every run of the wrapper model the subject clause holds (above);
+   a failing session clause occurs only for a merged follower of a session-keyed call (C16-K1) ... *)
 
-(* ... a failing session clause only for a merged follower of a session-keyed call (C16-K1) ... *)
 Theorem C16_monitor_session_failure_explained : forall tr w t c r n,
   wreach tr w -> thread (w_g w) t = Some (Returned c r n) ->
   session_clause tr t (wsession w t) = true \/ (is_follower tr t = true /\ has_session_question tr t = true).
 Proof. exact monitor_session_failure_explained. Qed.
 Print Assumptions C16_monitor_session_failure_explained.
 
-(* ... so, whatever mixture of the two findings one schedule exhibits, a case whose observation
-   equals the model's prediction is attributed (never left as an unexplained violation), while a
-   failing clause without a signature keeps it a VIOLATION. *)
-Theorem C16_monitor_failures_explained : forall tr w t c r n,
-  wreach tr w -> (forall q, In q (questions tr) -> wf_question q = true) ->
+(* ... so a case whose observation equals the model's prediction is attributed to C16-K1 or holds,
+   while a failing clause without that signature — any merge of different subjects, for one —
+   keeps it a VIOLATION. *)
+Theorem C16_monitor_failures_explained : forall tr w t c r n svc,
+  wreach tr w ->
+  (forall q, In q (questions tr) -> wf_question q = true /\ q_bytes q /\ service_of (q_endpoint q) = svc) ->
   thread (w_g w) t = Some (Returned c r n) ->
   clause_failures_explained tr t (wsession w t) = true.
 Proof. exact monitor_failures_explained. Qed.
@@ -221,26 +230,25 @@ Theorem C16_distinct_wrappers_never_share : forall tr m a t,
 Proof. exact wrapper_knows_only_its_callers. Qed.
 Print Assumptions C16_distinct_wrappers_never_share.
 
-(* The proxy's ValidateSessionState / RefreshSession keys omit the allowed groups the answer
-   depends on: "calls that differ in the group set asked about are never merged" is FALSE of one
-   wrapper object handed two different allowedGroups (known finding C16-K3, latent) ... *)
-Theorem C16_allowed_groups_not_in_key_refuted :
-  exists q1 q2, wf_question q1 = true /\ wf_question q2 = true /\ guard q1 = true /\ guard q2 = true /\
-    wrapper_key q1 = wrapper_key q2 /\ allowed_of q1 <> allowed_of q2.
-Proof. exact allowed_groups_not_in_key_refuted. Qed.
-Print Assumptions C16_allowed_groups_not_in_key_refuted.
+(* Since 8276927 the proxy's ValidateSessionState / RefreshSession keys contain the sorted allowed
+   groups: questions that differ in the group set asked about never share a key
+   (was C16_allowed_groups_not_in_key_refuted, known finding C16-K3, now fixed) ... *)
+Theorem C16_allowed_groups_in_key : forall e s1 s2 al1 al2,
+  e = PValidate \/ e = PRefresh ->
+  q_bytes (QSession e s1 al1) -> q_bytes (QSession e s2 al2) ->
+  wrapper_key (QSession e s1 al1) = wrapper_key (QSession e s2 al2) -> sort_strs al1 = sort_strs al2.
+Proof. exact allowed_groups_in_key. Qed.
+Print Assumptions C16_allowed_groups_in_key.
 
-(* ... and true of a deployment-shaped run: when every validate/refresh question put to wrapper
-   object a carries that object's allowed groups (one object per upstream), callers that share an
-   execution asked about the same subject INCLUDING the allowed groups. *)
-Theorem C16_merged_same_full_subject : forall tr m a cfg t1 t2 c q1 q2,
+(* ... so in every run of a deployment, callers that share an execution (necessarily at one wrapper
+   object) asked the same method about the same subject INCLUDING the allowed groups. *)
+Theorem C16_merged_same_full_subject : forall tr m a t1 t2 c q1 q2,
   mreach tr m ->
-  (forall t e s al, In (a, WEnter t (QSession e s al)) tr -> e = PValidate \/ e = PRefresh -> sort_strs al = cfg) ->
   in_call (w_g (component m a)) t1 c -> in_call (w_g (component m a)) t2 c ->
   In (a, WEnter t1 q1) tr -> In (a, WEnter t2 q2) tr ->
-  wf_question q1 = true -> wf_question q2 = true -> guard q1 = true -> guard q2 = true ->
+  wf_question q1 = true -> wf_question q2 = true -> q_bytes q1 -> q_bytes q2 ->
   service_of (q_endpoint q1) = service_of (q_endpoint q2) ->
-  subject_of q1 = subject_of q2 /\ allowed_of q1 = allowed_of q2.
+  q_endpoint q1 = q_endpoint q2 /\ subject_of q1 = subject_of q2 /\ allowed_of q1 = allowed_of q2.
 Proof. exact merged_same_full_subject. Qed.
 Print Assumptions C16_merged_same_full_subject.
 
